@@ -14,6 +14,11 @@ CLAIMED = {
    design_ref="DESIGN.md 5.3",
    note="Trusts: patched rand 0.8.8 (ThreadRng word source only), the add-only cfg(smartcore_verif) probe and bbd_clustering wrapper in /repo/src/verif.rs, f64 exhaustive search as reference with tolerances >=100x the measured worst case (reported in evidence). Real: KMeans fit/predict/kmeans_plus_plus, BBDTree. Stub: ThreadRng entropy.",
    technique="deterministic simulation: seeded PRNG/extreme/forced words behind k-means++ draws, in-run invariant at every Lloyd step vs exhaustive-search reference model, crash containment, replayable tape"),
+ "C10": dict(
+   text="Seeded search over the visiting orders the trainer may draw: every thread_rng word behind Optimizer::permutate (initialize + each epoch) is served by the simulator, so a fit is one exactly replayable tuple of permutations out of (n!)^(1+epoch); all order pairs for n<=4 (all initialize orders for n=5) are enumerated, larger n sampled with PRNG / extreme / forced adversarial orders (one class first, reverse, rotations). After each fit the dual box, sum-to-zero, support-vectors-are-training-rows, kernel-expansion (against closed forms computed in the harness) and label-rule oracles are evaluated on the model's serde image; a logical clock (kernel evaluations through the Kernel trait seam + a cfg-guarded tick in the SMO loops) turns termination into a deterministic bounded-liveness check. SVR (draws nothing) and the kernel closed forms / symmetry / PSD clauses ride along as schedule-free configurations, reported separately.",
+   design_ref="DESIGN.md 5.2",
+   note="Trusts: patched rand 0.8.8 (ThreadRng word source only), the Counting<K> wrapper (delegates to the real kernels), the add-only cfg(smartcore_verif) tick hook, closed-form kernels written in the harness. SVR optimality slack = tol + 1e-9*scale (stopping rule guarantees tol/2); SVR workload restricted to the fast-converging region (see evidence assumptions). Real: SVC/SVR optimisers, kernels, predict/decision_function. Stub: ThreadRng entropy, counting kernel wrapper.",
+   technique="deterministic simulation: seeded PRNG owns every permutation SVC visits rows in (exhaustive for n<=4), logical-clock step budget via Kernel trait + tick hook, dual-feasibility/kernel-expansion oracles vs closed-form reference, replayable tape"),
 }
 
 NOT_APPLICABLE = {
@@ -36,7 +41,6 @@ NOT_APPLICABLE = {
 }
 PENDING = {
  "C06": "claimed in DESIGN.md 5.4; simulation check under construction in this round (will move to checks when built)",
- "C10": "claimed in DESIGN.md 5.2; simulation check under construction in this round (will move to checks when built)",
 }
 
 def main():
